@@ -57,6 +57,8 @@ where
         committed: CommittedPrefixEnd,
     ) -> Result<(), GrevmError<DB::Error>> {
         let start = committed.index();
+        #[cfg(feature = "verif")]
+        crate::verif::event(crate::verif::Event::SequentialPath { start });
         let result_count = self.results.lock().len();
         // State is already committed through `start`; outcomes must name the identical prefix
         // before replay can safely append the suffix.
@@ -94,6 +96,8 @@ where
                 let state = evm.finalize();
                 output.map(|output| {
                     let result = output.into_immediate_result();
+                    #[cfg(feature = "verif")]
+                    crate::verif::commit_state(crate::verif::CommitPath::Sequential, txid, &result, &state);
                     evm.db_mut().commit(state);
                     result
                 })
@@ -114,6 +118,8 @@ where
             let outcome = match transact(txid, &self.txs[txid]) {
                 Ok(result) => TxExecutionOutcome::Executed(result),
                 Err(EVMError::Transaction(error)) => {
+                    #[cfg(feature = "verif")]
+                    crate::verif::sequential_skip(txid, &error);
                     tracing::error!(
                         target: "grevm::scheduler",
                         block_number = %self.env.number,
@@ -124,6 +130,8 @@ where
                     TxExecutionOutcome::Skipped(error)
                 }
                 Err(error) => {
+                    #[cfg(feature = "verif")]
+                    crate::verif::event(crate::verif::Event::ReplayError { txid });
                     return SequentialReplayOutput {
                         outcomes,
                         error: Some(GrevmError { txid, error }),
